@@ -9,3 +9,5 @@ import (
 func realAST(jp *jmespath.JMESPath) interface{} { return []interface{}{} }
 
 func realTokens(text string) interface{} { return []interface{}{} }
+
+func nodeAST(n jmespath.ASTNode) interface{} { return []interface{}{} }
